@@ -596,12 +596,13 @@ static void run_ops(int T, prog_t * p, void ** exit_val) {
         r = myth_create_ex(has(o, "nullid") ? 0 : &id, 0, thread_main, (void *)(long)C);
       }
     } else if (!strcmp(op, "join")) {
-      void * v = 0; r = myth_join(thr_ptr[num(o->w[1])], &v); sprintf(ex, "val=%ld", (long)v);
+      /* flag `null` (join / tryjoin / timedjoin and the w / j loops): the result pointer is NULL (C13) */
+      void * v = 0; int nl = has(o, "null"); r = myth_join(thr_ptr[num(o->w[1])], nl ? 0 : &v); if (!nl) sprintf(ex, "val=%ld", (long)v);
     } else if (!strcmp(op, "tryjoin")) {
-      void * v = 0; r = myth_tryjoin(thr_ptr[num(o->w[1])], &v); sprintf(ex, "val=%ld", (long)v);
+      void * v = 0; int nl = has(o, "null"); r = myth_tryjoin(thr_ptr[num(o->w[1])], nl ? 0 : &v); if (!nl) sprintf(ex, "val=%ld", (long)v);
     } else if (!strcmp(op, "timedjoin")) {
-      void * v = 0; struct timespec ts; mk_deadline(T, o, &ts);
-      r = myth_timedjoin(thr_ptr[num(o->w[1])], &v, &ts); sprintf(ex, "val=%ld", (long)v);
+      void * v = 0; int nl = has(o, "null"); struct timespec ts; mk_deadline(T, o, &ts);
+      r = myth_timedjoin(thr_ptr[num(o->w[1])], nl ? 0 : &v, &ts); if (!nl) sprintf(ex, "val=%ld", (long)v);
     } else if (!strcmp(op, "tryjoinw") || !strcmp(op, "timedjoinw")) {
       /* tryjoinw T : repeat { tryjoin T } until it returns 0, yielding in between;
          timedjoinw T ns : repeat { timedjoin T ns } until 0.  Every attempt is logged as its own call (C13) */
@@ -609,13 +610,14 @@ static void run_ops(int T, prog_t * p, void ** exit_val) {
       for (;;) {
         op_t w1; memset(&w1, 0, sizeof(w1)); w1.n = timed ? 3 : 2;
         strcpy(w1.w[0], timed ? "timedjoin" : "tryjoin"); strcpy(w1.w[1], o->w[1]); if (timed) strcpy(w1.w[2], o->w[2]);
+        int nl = has(o, "null"); if (nl) strcpy(w1.w[w1.n++], "null");
         ev_call(T, &w1);
         void * v = 0; int rr; char e2[32];
         if (timed) {
           struct timespec ts; mk_deadline(T, o, &ts);
-          rr = myth_timedjoin(thr_ptr[num(o->w[1])], &v, &ts);
-        } else rr = myth_tryjoin(thr_ptr[num(o->w[1])], &v);
-        sprintf(e2, "val=%ld", (long)v);
+          rr = myth_timedjoin(thr_ptr[num(o->w[1])], nl ? 0 : &v, &ts);
+        } else rr = myth_tryjoin(thr_ptr[num(o->w[1])], nl ? 0 : &v);
+        e2[0] = 0; if (!nl) sprintf(e2, "val=%ld", (long)v);
         ev_ret(T, rr, e2); attempts++;
         if (rr == 0) break;
         if (!timed) myth_yield();
@@ -625,13 +627,14 @@ static void run_ops(int T, prog_t * p, void ** exit_val) {
       /* timedjoinj T ns [abs] : one timedjoin; if it did not return 0, a blocking join.  Each is logged as its own call (C20) */
       op_t w1; memset(&w1, 0, sizeof(w1)); w1.n = 3; strcpy(w1.w[0], "timedjoin"); strcpy(w1.w[1], o->w[1]); strcpy(w1.w[2], o->w[2]);
       if (has(o, "abs")) { w1.n = 4; strcpy(w1.w[3], "abs"); }
+      int nl = has(o, "null"); if (nl) strcpy(w1.w[w1.n++], "null");
       ev_call(T, &w1);
       void * v = 0; struct timespec ts; char e2[32]; mk_deadline(T, o, &ts);
-      int rr = myth_timedjoin(thr_ptr[num(o->w[1])], &v, &ts);
-      sprintf(e2, "val=%ld", (long)v); ev_ret(T, rr, e2);
+      int rr = myth_timedjoin(thr_ptr[num(o->w[1])], nl ? 0 : &v, &ts);
+      e2[0] = 0; if (!nl) sprintf(e2, "val=%ld", (long)v); ev_ret(T, rr, e2);
       if (rr != 0) {
-        w1.n = 2; strcpy(w1.w[0], "join"); ev_call(T, &w1);
-        rr = myth_join(thr_ptr[num(o->w[1])], &v); sprintf(e2, "val=%ld", (long)v); ev_ret(T, rr, e2);
+        w1.n = 2; strcpy(w1.w[0], "join"); if (nl) strcpy(w1.w[w1.n++], "null"); ev_call(T, &w1);
+        rr = myth_join(thr_ptr[num(o->w[1])], nl ? 0 : &v); e2[0] = 0; if (!nl) sprintf(e2, "val=%ld", (long)v); ev_ret(T, rr, e2);
       }
       r = rr;
     } else if (!strcmp(op, "cancel")) {
